@@ -41,3 +41,15 @@ func VerifMakeLinkService(t *VerifMemTransport, opt NDNLPLinkServiceOptions) *ND
 func VerifSendPacket(l *NDNLPLinkService, out dispatch.OutPkt) { sendPacket(l, out) }
 func VerifHandleFrame(l *NDNLPLinkService, frame []byte)        { l.handleIncomingFrame(frame) }
 func VerifReadTlvStream(r io.Reader, onFrame func([]byte)) error { return readTlvStream(r, onFrame, nil) }
+
+// VerifStoreSize returns the number of partially reassembled messages and the bytes they hold.
+func VerifStoreSize(l *NDNLPLinkService) (msgs int, slots int, bytes int) {
+	for _, frags := range l.partialMessageStore {
+		msgs++
+		slots += len(frags)
+		for _, f := range frags {
+			bytes += len(f)
+		}
+	}
+	return
+}
